@@ -231,3 +231,112 @@ Lemma coop_close_fee_above_funder_balance_witness :
   is_ok (build_closing true false 100000 1540000 3370 354) = false /\
   is_ok (build_closing true false 100000 1540000 1540 354) = true.
 Proof. split; vm_compute; reflexivity. Qed.
+
+(** ** The "keep at least one output" guard of the send limits *)
+
+Lemma sat_mul_small a : 0 <= a -> a * 1000 < 2 ^ 64 -> sat_mul 64 a 1000 = a * 1000.
+Proof. intros. unfold sat_mul. lia. Qed.
+
+(** [has_output] only improves when the holder keeps more. *)
+Lemma has_output_mono funder hb1 hb2 cb fr nd dust ct :
+  hb1 <= hb2 -> has_output funder hb1 cb fr nd dust ct = true -> has_output funder hb2 cb fr nd dust ct = true.
+Proof.
+  unfold has_output, saturating_sub_from_funder, sat_sub. intros Hle.
+  destruct funder.
+  - destruct (Z.ltb_spec (Z.max 0 (hb1 - sat_mul 64 (commit_tx_fee_sat fr nd ct) 1000)) (dust * 1000)) as [H1|H1];
+    destruct (Z.ltb_spec (Z.max 0 (hb2 - sat_mul 64 (commit_tx_fee_sat fr nd ct) 1000)) (dust * 1000)) as [H2|H2];
+    cbn [andb negb]; auto. lia.
+  - destruct (Z.ltb_spec hb1 (dust * 1000)) as [H1|H1]; destruct (Z.ltb_spec hb2 (dust * 1000)) as [H2|H2];
+    cbn [andb negb]; auto. lia.
+Qed.
+
+Record guard_range (hb cb fr nd dust : Z) : Prop := {
+  gr_hb : 0 <= hb < 2 ^ 64;
+  gr_cb : 0 <= cb < 2 ^ 64;
+  gr_fr : 0 <= fr < 2 ^ 32;
+  gr_nd : 0 <= nd <= 2 ^ 20;
+  gr_dust : 0 <= dust < 2 ^ 40
+}.
+
+(** Smallest amount (msat) that is NOT dust on the commitment of the side given by [local], for a
+    broadcaster dust limit [dust]. *)
+Definition min_nondust_msat (local : bool) (fr dust : Z) (ct : ChannelTypeFeatures) : Z :=
+  (dust + (if local then snd (second_stage_tx_fees_sat ct fr) else fst (second_stage_tx_fees_sat ct fr))) * 1000.
+
+Lemma second_stage_bounds ct fr : 0 <= fr < 2 ^ 32 ->
+  0 <= fst (second_stage_tx_fees_sat ct fr) < 2 ^ 42 /\ 0 <= snd (second_stage_tx_fees_sat ct fr) < 2 ^ 42.
+Proof.
+  intros Hfr. unfold second_stage_tx_fees_sat.
+  destruct (_ || _); cbn [fst snd]; [lia|].
+  pose proof (weights_pos ct) as (Hs & Ht & _).
+  split; (split; [apply Z.div_pos; nia | apply Z.div_lt_upper_bound; nia]).
+Qed.
+
+(** One call of [adjust_boundaries_if_max_dust_htlc_produces_no_output] for the commitment of side
+    [local] with broadcaster dust limit [dust]: the interval only shrinks, and every positive amount
+    inside the new interval that the holder owns is either non-dust on that commitment (it becomes an
+    output) or leaves that commitment with an output. *)
+Lemma adjust_boundaries_keeps_output local funder hb cb fr nd dust ct mn cap mn' cap' :
+  guard_range hb cb fr nd dust ->
+  adjust_boundaries_if_max_dust_htlc_produces_no_output local funder hb cb fr nd dust ct mn cap = (mn', cap') ->
+  mn <= mn' /\ cap' <= cap /\
+  forall a, 0 < a -> mn' <= a <= cap' -> a <= hb ->
+    min_nondust_msat local fr dust ct <= a \/ has_output funder (hb - a) cb fr nd dust ct = true.
+Proof.
+  intros [Hhb Hcb Hfr Hnd Hd]. unfold adjust_boundaries_if_max_dust_htlc_produces_no_output, min_nondust_msat.
+  pose proof (second_stage_bounds ct fr Hfr) as [Hs Ht].
+  destruct (second_stage_tx_fees_sat ct fr) as [sf tf]. cbn [fst snd] in *.
+  set (m := dust + (if local then tf else sf)).
+  assert (0 <= m < 2 ^ 43) as Hm by (unfold m; destruct local; lia).
+  rewrite (sat_mul_small m) by lia.
+  destruct (has_output funder (sat_sub hb (sat_sub (m * 1000) 1)) cb fr nd dust ct) eqn:Eho; cbn [negb].
+  - intros [= <- <-]. split; [lia|]. split; [lia|].
+    intros a Ha Hin Hle. destruct (Z_le_gt_dec (m * 1000) a) as [|Hlt]; [left; assumption|right].
+    apply (has_output_mono funder (sat_sub hb (sat_sub (m * 1000) 1))); [unfold sat_sub; lia | exact Eho].
+  - destruct (Z.leb_spec (m * 1000) cap) as [Hc|Hc].
+    + intros [= <- <-]. split; [lia|]. split; [lia|]. intros a Ha Hin Hle. left. lia.
+    + intros [= <- <-]. split; [lia|]. split; [lia|].
+      intros a Ha Hin Hle. right.
+      (* nothing but the holder's own balance can give an output here *)
+      unfold has_output in Eho |- *. unfold saturating_sub_from_funder in *.
+      set (fee0 := commit_tx_fee_sat fr nd ct) in *.
+      assert (0 <= fee0) as Hf0 by (apply commit_tx_fee_nonneg; lia).
+      assert (nd = 0 /\ ctf_supports_anchor_zero_fee_commitments ct = false) as [End Ez].
+      { destruct funder; cbv beta iota in Eho; rewrite negb_false_iff, !andb_true_iff in Eho;
+        destruct Eho as (((E1 & E2) & E3) & E4); apply Z.eqb_eq in E3; rewrite negb_true_iff in E4; auto. }
+      assert (fee0 * 1000 < 2 ^ 64) as Hfb.
+      { unfold fee0, commit_tx_fee_sat, COMMITMENT_TX_WEIGHT_PER_HTLC. pose proof (weights_pos ct) as (_ & _ & Hb & _).
+        assert (fr * (commitment_tx_base_weight ct + nd * 172) / 1000 <= fr * (commitment_tx_base_weight ct + nd * 172))
+          by (apply Z.div_le_upper_bound; nia). nia. }
+      rewrite (sat_mul_small fee0) in * by lia.
+      assert (fee0 = commit_tx_fee_sat fr 0 ct) as Ef0 by (unfold fee0; rewrite End; reflexivity).
+      rewrite <- Ef0 in Hin.
+      destruct funder; cbv beta iota; rewrite Ez; cbn [negb]; rewrite andb_true_r;
+        rewrite negb_true_iff, !andb_false_iff; left; left; apply Z.ltb_ge; unfold sat_sub in *; lia.
+Qed.
+
+(** Both calls together, as [get_available_balances] makes them: the guard for the HOLDER's commitment
+    uses the holder's dust limit and the HTLC-timeout fee, the guard for the COUNTERPARTY's commitment the
+    counterparty's dust limit and the HTLC-success fee. Every sendable amount keeps an output on BOTH
+    commitments (or is itself one). *)
+Lemma send_limits_keep_an_output funder hb cb lnd rnd fr k ct mn cap mn' cap' :
+  guard_range hb cb fr lnd (cst_holder_dust_limit_satoshis k) ->
+  guard_range hb cb fr rnd (cst_counterparty_dust_limit_satoshis k) ->
+  adjust_min_max_htlc_if_max_dust_htlc_produces_no_output funder hb cb lnd rnd fr k ct mn cap = (mn', cap') ->
+  mn <= mn' /\ cap' <= cap /\
+  forall a, 0 < a -> mn' <= a <= cap' -> a <= hb ->
+    (min_nondust_msat true fr (cst_holder_dust_limit_satoshis k) ct <= a \/
+     has_output funder (hb - a) cb fr lnd (cst_holder_dust_limit_satoshis k) ct = true) /\
+    (min_nondust_msat false fr (cst_counterparty_dust_limit_satoshis k) ct <= a \/
+     has_output funder (hb - a) cb fr rnd (cst_counterparty_dust_limit_satoshis k) ct = true).
+Proof.
+  intros Hl Hr. unfold adjust_min_max_htlc_if_max_dust_htlc_produces_no_output.
+  destruct (adjust_boundaries_if_max_dust_htlc_produces_no_output true funder hb cb fr lnd _ ct mn cap) as [mn1 cap1] eqn:E1.
+  destruct (adjust_boundaries_if_max_dust_htlc_produces_no_output false funder hb cb fr rnd _ ct mn1 cap1) as [mn2 cap2] eqn:E2.
+  intros [= <- <-].
+  destruct (adjust_boundaries_keeps_output _ _ _ _ _ _ _ _ _ _ _ _ Hl E1) as (Ha1 & Hb1 & Hc1).
+  destruct (adjust_boundaries_keeps_output _ _ _ _ _ _ _ _ _ _ _ _ Hr E2) as (Ha2 & Hb2 & Hc2).
+  split; [lia|]. split; [lia|]. intros a Ha Hin Hle. split.
+  - apply Hc1; lia.
+  - apply Hc2; lia.
+Qed.
